@@ -2,7 +2,7 @@
    MapProofs and WorldProofs; the Prop_Cxx.v files restate them and close them by [exact]. *)
 From stdpp Require Import gmap list.
 From Coq Require Import NArith Lia.
-From G Require Import Arith Monad Types Inv Raw RawProofs Map MapProofs Cost Fill WorldProofs.
+From G Require Import Arith Monad Types Inv Raw RawProofs Map MapProofs IterProofs Cost Fill WorldProofs.
 Local Open Scope N_scope.
 
 (* every world reachable by a history of (so far: core) operations, from the empty world *)
@@ -259,6 +259,88 @@ Proof.
   pose proof (fill_spec c es s HI Hnd Hf Hfit) as H. unfold wp in H.
   destruct (iterM (rt_insert c) es s) as [a s'|p s'|f]; [|apply H|exact H].
   destruct H as (H1 & H2 & H3 & _ & H5 & _). auto.
+Qed.
+
+(* ---------------------------------------------------------------- C08, C09: one call, by its kind *)
+
+Lemma T_step_ok c w t o w' :
+  0 < cR c -> WInv c w -> core_op (t_op t) -> step c w t = Ok o w' ->
+  WInv c w' /\ spec_rel (wabs w) (t_op t) o (wabs w').
+Proof.
+  intros HR HW Hc Hrun. pose proof (step_core c HR w t HW Hc) as H. rewrite Hrun in H. exact H.
+Qed.
+
+(* iter / keys / values / iter_mut / values_mut: every element present, exactly once *)
+Lemma T_C08_iter c w t s variant delta o w' :
+  0 < cR c -> WInv c w -> t_op t = OIter s variant delta -> step c w t = Ok o w' ->
+  WInv c w' /\ exists (m : gmap N elem) l, wabs w !! s = Some m /\ NoDup (map ek l) /\ list_to_emap l = m /\
+    o = OutL (map elem3 l) /\ wabs w' = <[s := if delta =? 0 then m else bumpv delta <$> m]> (wabs w).
+Proof.
+  intros HR HW Eop Hrun. assert (Hc : core_op (t_op t)) by (rewrite Eop; exact I).
+  destruct (T_step_ok c w t o w' HR HW Hc Hrun) as [HW' Hs]. rewrite Eop in Hs. auto.
+Qed.
+
+(* the exact length an iterator reports when created *)
+Lemma T_C08_exact_len c r l : Inv (cR c) (cesz c) r -> iter_of r l -> N.of_nat (length l) = rt_len r.
+Proof. apply iter_of_length. Qed.
+
+(* keys() and values() enumerate in the same order as iter(): one traversal serves them all *)
+Lemma T_C08_same_order c w t1 t2 s v1 v2 delta :
+  t_op t1 = OIter s v1 delta -> t_op t2 = OIter s v2 delta ->
+  t_on t1 = t_on t2 -> t_tomb t1 = t_tomb t2 -> t_perm t1 = t_perm t2 -> t_qperm t1 = t_qperm t2 ->
+  step c w t1 = step c w t2.
+Proof. intros E1 E2 H1 H2 H3 H4. unfold step. rewrite E1, E2, H1, H2, H3, H4. reflexivity. Qed.
+
+(* drain: a prefix of an enumeration of the contents is yielded; the map is empty and usable *)
+Lemma T_C08_drain c w t s j forget o w' :
+  0 < cR c -> WInv c w -> t_op t = ODrain s j forget -> step c w t = Ok o w' ->
+  WInv c w' /\ exists (m : gmap N elem) l, wabs w !! s = Some m /\ NoDup (map ek l) /\ list_to_emap l = m /\
+    o = OutL (map elem3 (firstn (N.to_nat j) l)) /\ wabs w' = <[s := (∅ : gmap N elem)]> (wabs w).
+Proof.
+  intros HR HW Eop Hrun. assert (Hc : core_op (t_op t)) by (rewrite Eop; exact I).
+  destruct (T_step_ok c w t o w' HR HW Hc Hrun) as [HW' Hs]. rewrite Eop in Hs. auto.
+Qed.
+
+Lemma T_C08_into_iter c w t s j o w' :
+  0 < cR c -> WInv c w -> t_op t = OIntoIter s j -> step c w t = Ok o w' ->
+  WInv c w' /\ exists (m : gmap N elem) l, wabs w !! s = Some m /\ NoDup (map ek l) /\ list_to_emap l = m /\
+    o = OutL (map elem3 (firstn (N.to_nat j) l)) /\ wabs w' = delete s (wabs w).
+Proof.
+  intros HR HW Eop Hrun. assert (Hc : core_op (t_op t)) by (rewrite Eop; exact I).
+  destruct (T_step_ok c w t o w' HR HW Hc Hrun) as [HW' Hs]. rewrite Eop in Hs. auto.
+Qed.
+
+(* retain(f): f sees every element once (l), the map keeps exactly what f accepted, as f left it *)
+Lemma T_C09_retain c w t s keep delta o w' :
+  0 < cR c -> WInv c w -> t_op t = ORetain s keep delta -> step c w t = Ok o w' ->
+  WInv c w' /\ exists (m : gmap N elem) l, wabs w !! s = Some m /\ NoDup (map ek l) /\ list_to_emap l = m /\
+    o = OutL (map elem3 l) /\ wabs w' = <[s := omap (retain_act keep delta) m]> (wabs w).
+Proof.
+  intros HR HW Eop Hrun. assert (Hc : core_op (t_op t)) by (rewrite Eop; exact I).
+  destruct (T_step_ok c w t o w' HR HW Hc Hrun) as [HW' Hs]. rewrite Eop in Hs. auto.
+Qed.
+
+(* drain_filter(f), consumed for j items or to the end, then dropped or forgotten *)
+Lemma T_C09_drain_filter c w t s take delta j forget o w' :
+  0 < cR c -> WInv c w -> t_op t = ODrainFilter s take delta j forget -> step c w t = Ok o w' ->
+  WInv c w' /\ exists (m : gmap N elem) l v1 rest m', wabs w !! s = Some m /\ NoDup (map ek l) /\ list_to_emap l = m /\
+    l = v1 ++ rest /\ o = OutL (map elem3 (yield_e take delta v1)) /\
+    pass_res (df_act take delta) m (if forget then v1 else l) m' /\
+    match j with Some j => (length (yield_e take delta v1) <= N.to_nat j)%nat /\
+                           (rest <> [] -> length (yield_e take delta v1) = N.to_nat j)
+            | None => rest = [] end /\
+    wabs w' = <[s := m']> (wabs w).
+Proof.
+  intros HR HW Eop Hrun. assert (Hc : core_op (t_op t)) by (rewrite Eop; exact I).
+  destruct (T_step_ok c w t o w' HR HW Hc Hrun) as [HW' Hs]. rewrite Eop in Hs. auto.
+Qed.
+
+(* a panicking predicate leaves every map's invariant intact (C07 for retain / drain_filter) *)
+Lemma T_C09_unwind c w t p w' :
+  0 < cR c -> WInv c w -> core_op (t_op t) -> step c w t = Unwind p w' -> WInv c w'.
+Proof.
+  intros HR HW Hc Hrun. pose proof (step_core c HR w t HW Hc) as H. rewrite Hrun in H. cbn [wres] in H.
+  destruct H as [[_ [H _]]|[_ H]]; exact H.
 Qed.
 
 (* ---------------------------------------------------------------- non-vacuity: a concrete
